@@ -681,3 +681,28 @@ theorem support_eq_cpOf (vals : List Validator) (wl : List Nat) (p : Prophecy) (
     simp [hin, this]
 
 end Sif.Oracle
+
+namespace Sif.Oracle
+open Sif.Generated
+
+theorem ratioGE_nat (p t : Nat) (ht : 0 < t) : ratioGE (p : Int) (t : Int) = decide (7 * t ≤ 10 * p) := by
+  unfold ratioGE
+  have hne : ((t : Nat) : Int) ≠ 0 := by omega
+  rw [if_neg hne]
+  apply decide_eq_decide.mpr
+  have h7 : ((BridgeConsts.consensusNum : Nat) : Int) = 7 := rfl
+  have h10 : ((BridgeConsts.consensusDen : Nat) : Int) = 10 := rfl
+  rw [h7, h10]
+  constructor <;> intro h <;> omega
+
+theorem ratioLT_nat (p t : Nat) (ht : 0 < t) : ratioLT (p : Int) (t : Int) = decide (10 * p < 7 * t) := by
+  unfold ratioLT
+  have hne : ((t : Nat) : Int) ≠ 0 := by omega
+  rw [if_neg hne]
+  apply decide_eq_decide.mpr
+  have h7 : ((BridgeConsts.consensusNum : Nat) : Int) = 7 := rfl
+  have h10 : ((BridgeConsts.consensusDen : Nat) : Int) = 10 := rfl
+  rw [h7, h10]
+  constructor <;> intro h <;> omega
+
+end Sif.Oracle
